@@ -91,6 +91,12 @@ void hazard_eras<Traits>::guard_ptr<T, MarkedPtr>::acquire(const concurrent_ptr<
     // we have to use acquire here to ensure that the subsequent era_clock.load
     // sees a value >= p.construction_era
     auto value = p.load(order);
+    if (value.get() == nullptr) {
+      // nothing to protect -> we must not occupy a hazard era (a mark is still part of the snapshot)
+      reset();
+      this->ptr = value;
+      return;
+    }
 
     auto era = era_clock.load(std::memory_order_relaxed);
     if (era == prev_era) {
@@ -135,9 +141,14 @@ bool hazard_eras<Traits>::guard_ptr<T, MarkedPtr>::acquire_if_equal(const concur
     // we have to use acquire here to ensure that the subsequent era_clock.load
     // sees a value >= p.construction_era
     auto p1 = p.load(order);
-    if (p1 == nullptr || p1 != expected) {
+    if (p1.get() == nullptr || p1 != expected) {
       reset();
-      return p1 == expected;
+      if (p1 != expected) {
+        return false;
+      }
+      // nothing to protect -> we must not occupy a hazard era (a mark is still part of the snapshot)
+      this->ptr = p1;
+      return true;
     }
 
     // Comparing the pointer again after the era has been published is not sufficient: the node
